@@ -26,7 +26,7 @@ typedef signed __CPROVER_bitvector[72] num_math_t;
 typedef unsigned __CPROVER_bitvector[72] num_umath_t;
 #endif
 
-extern int g_num_calls;		/* number of strto* calls made so far */
+extern unsigned g_num_calls;		/* number of strto* calls made so far */
 extern int g_num_nd;
 extern int g_num_neg;
 extern int g_num_ovf;
